@@ -7,6 +7,7 @@ import time
 from typing import Dict, List, Optional, Set, Tuple
 
 from ..core import AnalysisError, RuleSpec
+from .. import astq
 from ..pymodel import call_name
 from ..specs import statements as S
 from . import c09
@@ -449,10 +450,41 @@ def r5_character_slots(ctx, rep):
     rep.ob("parse_type: default character length is 1", ok, "", py.nloc(fn), nontrivial=False)
 
 
+
+ORDER_BEARING = {"args": "the dummy-argument list is the procedure's signature", "bindings": "the specific bindings of a generic are in declaration order"}
+
+
+def r6_order_bearing_collections(ctx, rep):
+    """the `sort` option reorders *sets* of entities; collections whose order carries meaning (the argument list)
+    must never be handed to it"""
+    py = ctx.py
+    fn = py.func("FortranBase.sort_components")
+    names: Set[str] = set()
+    env = py.module_env("sourceform")
+    for n in ast.walk(fn):
+        if isinstance(n, (ast.For, ast.comprehension)):
+            v = py.eval_const(n.iter, env)
+            if isinstance(v, (list, tuple)) and v and all(isinstance(x, str) for x in v):
+                names |= set(v)
+    for c in py.walk_calls(fn):
+        if isinstance(c.func, ast.Attribute) and c.func.attr == "sort" and ast.unparse(c.func.value).startswith("self."):
+            names.add(ast.unparse(c.func.value)[5:])
+        if call_name(c) == "getattr" and len(c.args) >= 2 and isinstance(c.args[1], ast.Constant):
+            names.add(c.args[1].value)
+    if len(names) < 5:
+        raise AnalysisError("sort_components: the list of sorted collections was not found")
+    for k, why in ORDER_BEARING.items():
+        rep.ob(f"sort_components leaves `{k}` in declaration order", k not in names,
+               why if k not in names else
+               f"`{k}` is reordered by the `sort` option, but {why}: with sort: alpha a procedure `solve(tolerance, matrix, n)` is "
+               f"documented as `solve(matrix, n, tolerance)`", py.nloc(fn))
+
+
 RULES = [
     RuleSpec("C01.R5", r5_character_slots, "character selector slots are filled at most once", floor=2),
     RuleSpec("C01.R1", r1_case_neutral, "case-neutral recognition", floor=24),
     RuleSpec("C01.R2", r2_lower_discipline, "lower-case discipline for keyword comparisons", floor=25),
     RuleSpec("C01.R4", r4_container_matrix, "container x construct matrix", floor=50),
     RuleSpec("C01.R3", r3_dispatch_matrix, "dispatch matrix vs statement-head languages", floor=151),
+    RuleSpec("C01.R6", r6_order_bearing_collections, "order-bearing collections are never sorted", floor=2),
 ]
